@@ -370,7 +370,7 @@ func (lx *lexicon) fnOf(tok string) *fnItem {
 			uniq = fmt.Sprintf("_%d", lx.n)
 		}
 	}
-	if lx.rng.Intn(60) == 0 {
+	if lx.res != nil && lx.rng.Intn(60) == 0 { // only in the print replay (drivers that try every byte offset pass no Result)
 		// a symbol longer than the 16 KiB read buffer (and sometimes than four of them)
 		uniq += strings.Repeat("L", []int{16300, 16384, 20000, 70000}[lx.rng.Intn(4)])
 		if lx.res != nil {
@@ -404,7 +404,7 @@ func (lx *lexicon) fileOf(tok string) *fileItem {
 		return it
 	}
 	sh := fileShapes[lx.rng.Intn(len(fileShapes))]
-	if lx.rng.Intn(60) == 0 {
+	if lx.res != nil && lx.rng.Intn(60) == 0 {
 		sh = fileShape{path: "/long/" + strings.Repeat("d", []int{16370, 33000}[lx.rng.Intn(2)]) + "/f.go", row: "longer than the read buffer"}
 	}
 	it := mkFile(sh, lx.rng)
